@@ -120,6 +120,7 @@ def build(eng, shape):
     '''Prepare the world: confirmed outputs and the mempool transactions of the shape.'''
     from electrumx.lib.tx import Tx, TxInput, TxOutput
     w = RefWorld(eng)
+    w.shape = shape
     native = symx.native()
     w.db_all = {}
     for i, cls in enumerate(shape['db']):
@@ -173,6 +174,15 @@ def install(w):
         return f(*a)
     mpmod.read_tx = read_tx
     mpmod.run_in_thread = inline
+    batch = w.shape.get('batch')
+    if batch:
+        # the fetch batch size (200 in the code) scaled down so that several batches - merged as they complete -
+        # are reachable with a handful of transactions; the code is parametric in the size
+        import electrumx.lib.util as util
+        mpmod.chunks = lambda items, size: util.chunks(items, batch)
+    else:
+        import electrumx.lib.util as util
+        mpmod.chunks = util.chunks
     import logging
     logging.disable(logging.CRITICAL)
     api = Api(w, mpmod)
@@ -350,7 +360,12 @@ def shapes(tier):
         {'db': 'A', 'txs': [{'ins': 1, 'outs': 'AA'}, {'ins': 2, 'outs': 'C'}],
          'events': [('arrive', [0, 1]), ('evict', [0, 1]), ('arrive', [0])]},
     ]
+    # several fetch batches in one refresh (batch size scaled to 1): parents, children and confirmed inputs spread
+    # over batches that are merged as they complete
+    out.append({'db': 'AB', 'txs': [t2, t3, t1], 'events': [('arrive', [0, 1, 2])], 'batch': 1})
     if tier == 'thorough':
+        out.append({'db': 'ABA', 'txs': [t3, t2, t3, t1], 'events': [('arrive', [0, 1, 2, 3]), ('evict', [3])], 'batch': 2,
+                    'permute': False})
         out += [
             {'db': 'ABA', 'txs': [t1, t2, t3], 'events': [('arrive', [0, 1, 2]), ('confirm', [0]), ('evict', [2])]},
             {'db': 'AB', 'txs': [t2, t1, t1], 'events': [('arrive', [2, 1, 0]), ('confirm', [0, 1]), ('confirm', [2])]},
@@ -371,7 +386,8 @@ KERNELS = [
                   'symbolic: all values (integers in [0, 21e14]), the spend graph (confirmed outputs, outputs of '
                   'earlier mempool transactions, generation-like inputs), the hash-to-role assignment (= every '
                   'delivery order); arrival / eviction / confirmation events enumerated per shape',
-           outside='more transactions, more than one fetch batch (200 transactions), the transaction parser (read_tx '
+           outside='more transactions, fetch batches of the real size (200; one shape scales the batch size down to 1 / 2 '
+                   'to reach the multi-batch merge), the transaction parser (read_tx '
                    'stubbed); in VIEW DB.lookup_utxos is a stub answering from the reference, the real one is wired in by '
                    'the DBLOOKUP kernel',
            assumptions=['the daemon lists no double spends and no spends of non-existent outputs',
